@@ -62,6 +62,9 @@ def c06(res):
     feed_traces(res, fam(t, 250000, 3000000), kinds="0")
     if t == "thorough":
         mc_head(res, "language-req-all-bytes", invs=["InvLanguage"], kinds='{"req"}', family="BYTE", follow="{10, 32}", caps="{1, 100000}", timeout=3000)
+    replay_step(res, "lanetail_q", kinds=K_REQ, modes="straddleall")
+    replay_step(res, "lanews_q", kinds=K_REQ, modes="straddle8")
+    replay_step(res, "lanelong_q", kinds=K_REQ, modes="base")
     call_traces(res)
 
 
@@ -76,6 +79,9 @@ def c07(res):
     feed_traces(res, fam(t, 250000, 3000000), kinds="1")
     if t == "thorough":
         mc_head(res, "language-resp-all-bytes", invs=["InvLanguage"], kinds='{"resp"}', family="BYTE", follow="{10}", caps="{100000}", cfgs="{0, 2, 94}", timeout=3000)
+    replay_step(res, "lanetail_q", kinds=K_RESP, modes="straddleall")
+    replay_step(res, "lanews_q", kinds=K_RESP, modes="straddle8")
+    replay_step(res, "lanelong_q", kinds=K_RESP, modes="base")
     call_traces(res)
 
 
@@ -91,6 +97,9 @@ def c08(res):
     feed_traces(res, fam(t, 250000, 3000000), kinds="0,1,2")
     if t == "thorough":
         mc_head(res, "language-hdrs-all-bytes", invs=["InvLanguage"], kinds='{"hdrs", "req"}', family="BYTE", follow="{10}", caps="{1, 100000}", cfgs="{0}", timeout=3000)
+    replay_step(res, "lanetail_q", kinds=HEADS, modes="straddleall")
+    replay_step(res, "lanews_q", kinds=HEADS, modes="straddle8")
+    replay_step(res, "lanelong_q", kinds=HEADS, modes="base")
     call_traces(res)
 
 
@@ -136,6 +145,8 @@ def c02(res):
     for f in fam(t, ["byte_q", "ext_q", "chunk_q", "methods", "versions", "reasons", "walk_q"], ["byte_t", "ext_t", "chunk_t", "lines_t", "methods", "versions", "reasons", "walk_t"]):
         replay_step(res, f, modes="extend")
     feed_traces(res, fam(t, 250000, 3000000), kinds="0,1,2,3")
+    replay_step(res, "lanetail_q", modes="straddleall")
+    replay_step(res, "lanews_q", modes="straddle8")
 
 
 def c03(res):
@@ -144,6 +155,8 @@ def c03(res):
     for f in fam(t, ["byte_q", "ext_q", "lane_q", "lines_q", "chunk_q", "methods", "versions", "walk_q", "lane8_q"], ["byte_t", "ext_t", "lane_t", "lines_t", "chunk_t", "hdrext_t", "methods", "versions", "walk_t", "lane8_t"]):
         replay_step(res, f, modes="base")
     feed_traces(res, fam(t, 250000, 3000000), kinds="0,1,2,3")
+    replay_step(res, "lanetail_q", modes="straddleall")
+    replay_step(res, "lanews_q", modes="straddle8")
     call_traces(res)
 
 
@@ -155,6 +168,8 @@ def c04(res):
     feed_traces(res, fam(t, 250000, 3000000), kinds="0,1,2")
     client_programs(res, fam(t, 600, 6000))
     op_traces(res, fam(t, 3000, 30000))
+    replay_step(res, "lanetail_q", kinds=HEADS, modes="straddleall")
+    replay_step(res, "lanews_q", kinds=HEADS, modes="straddle8")
 
 
 def c05(res):
@@ -163,6 +178,9 @@ def c05(res):
     for f in fam(t, ["byte_q", "lane_q", "ext_q", "methods", "versions", "reasons", "walk_q", "deep_q", "lane8_q"], ["byte_t", "lane_t", "ext_t", "ext17_t", "hdrext_t", "methods", "versions", "reasons", "walk_t", "deep_t", "lane8_t"]):
         replay_step(res, f, kinds=HEADS, modes="base")
     feed_traces(res, fam(t, 250000, 3000000), kinds="0,1,2")
+    replay_step(res, "lanetail_q", kinds=HEADS, modes="straddleall")
+    replay_step(res, "lanews_q", kinds=HEADS, modes="straddle8")
+    replay_step(res, "lanelong_q", kinds=HEADS, modes="base")
 
 
 def c14(res):
@@ -174,6 +192,8 @@ def c14(res):
     feed_traces(res, fam(t, 250000, 3000000), kinds="0,1")
     if t == "thorough":
         mc_head(res, "language-options-all-bytes", invs=["InvLanguage"], kinds='{"resp"}', family="BYTE", follow="{10}", caps="{100000}", cfgs="{94, 8, 64, 4, 16}", phases=HDR_PHASES, timeout=3000)
+    replay_step(res, "lanetail_q", kinds="0,1", modes="straddleall")
+    replay_step(res, "lanews_q", kinds="0,1", modes="straddle8")
     call_traces(res)
 
 
@@ -235,6 +255,7 @@ def c19(res):
     if res.extra["no_std_link"]["linked"]:
         replay_step(res, "lines_q", modes="entries", variant=VARIANTS["nostd"])
     replay_step(res, "len_q", modes="entries", backend=3)
+    call_traces(res)
 
 
 def c01(res):
@@ -252,6 +273,9 @@ def c01(res):
         op_traces(res, 20000, backends=(None,), profile="dbgchk")
         work_traces(res, [65536, 1048576])
         parser_refinement(res, "4")
+    replay_step(res, "lanetail_q", modes="straddleall")
+    replay_step(res, "lanews_q", modes="straddle8,places")
+    replay_step(res, "lanelong_q", modes="alignall")
     call_traces(res)
 
 
@@ -402,12 +426,17 @@ def c13(res):
         replay_step(res, f, modes="base", baseline=True)
         replay_step(res, f, modes="base", profile="dbgchk", promote=True)
     replay_step(res, "lane8_q", modes="places", baseline=True)
+    replay_step(res, "lanetail_q", modes="straddleall", baseline=True)
+    replay_step(res, "lanelong_q", modes="alignall", baseline=True)
     for b in (1, 2, 3):
+        replay_step(res, "lanelong_q", modes="alignall", backend=b, promote=True)
+        replay_step(res, "lanetail_q", modes="straddleall", backend=b, promote=True)
         replay_step(res, "lane8_q", modes="places", backend=b, promote=True)
         replay_step(res, lf, modes="places", backend=b, promote=True)
         replay_step(res, "len_q", modes="places", backend=b, profile="dbgchk", promote=True)
-    for name in fam(t, ["sse42ct", "nosimd", "nostd"], ["sse42ct", "avx2ct", "nosimd", "noct", "nostd"]):
+    for name in ["sse42ct", "avx2ct", "nosimd", "noct", "nostd"]:
         replay_step(res, lf, modes="places", variant=VARIANTS[name], promote=True)
+        replay_step(res, "lane8_q", modes="places", variant=VARIANTS[name], promote=True)
         if t == "thorough":
             replay_step(res, "byte_q", modes="base", variant=VARIANTS[name], promote=True)
             replay_step(res, "len_q", modes="places", variant=VARIANTS[name], profile="dbgchk", promote=True)
@@ -769,7 +798,8 @@ CALL_PARTS = {
     "C09": ('{"st", "n", "digits"}', "{3}"),
     "C10": ('{"err"}', "{0, 1, 2}"),
     "C14": ('{"st", "headers"}', "{0, 1}"),
-    "C17": ('{"st", "count", "err"}', "{0, 1, 2}"),
+    "C17": ('{"st", "count", "err", "slots"}', "{0, 1, 2}"),
+    "C19": ('{"allocs"}', "{0, 1, 2, 3}"),
 }
 
 
